@@ -207,7 +207,15 @@ func (v *catalog_[K, V]) RemoveValue(key K) V {
 	var old V // Set the return value to its zero value.
 	var association, exists = v.keys_[key]
 	if exists {
-		var index = v.associations_.GetIndex(association)
+		// Find the association itself, not one that merely has equal content.
+		var index int
+		var iterator = v.associations_.GetIterator()
+		for iterator.HasNext() {
+			index++
+			if iterator.GetNext() == association {
+				break
+			}
+		}
 		v.associations_.RemoveValue(index)
 		old = association.GetValue()
 		delete(v.keys_, key)
